@@ -294,6 +294,28 @@ def r7b_write_fmt(text):
     return out, n
 
 
+
+def r6_float_literals(text):
+    """R6: decimal float literals (`0.0`, `1e-4`, `100f32`, `1_000_000_000f64`) become exact rationals
+    `F64::ratio(n, d)` of the real-arithmetic shim."""
+    from fractions import Fraction
+    mask = rustscan.code_mask(text)
+    n = 0
+    out = []
+    pos = 0
+    for m in re.finditer(r"(?<![\w.])(\d[\d_]*\.\d[\d_]*(?:e[+-]?\d+)?|\d[\d_]*e[+-]?\d+|\d[\d_]*(?=_?f(?:32|64)))(?:_?f(?:32|64))?(?![\w.])", text):
+        if not mask[m.start()]:
+            continue
+        lit = m.group(1).replace("_", "")
+        fr = Fraction(lit)
+        out.append(text[pos:m.start()])
+        out.append("F64::ratio(%d, %d)" % (fr.numerator, fr.denominator))
+        pos = m.end()
+        n += 1
+    out.append(text[pos:])
+    return "".join(out), n
+
+
 def r12_match_str(text):
     """R12: `match E.as_str() { "lit" => A, ... , _ => D }` -> `if str_eq(E, "lit") { A } else if ... else { D }`
     (string-literal patterns are not connected to view equality in Verus)."""
@@ -893,11 +915,37 @@ class Unit:
                 parts.append("// ---- prelude: %s ----\n" % p + ptxt + "\n")
         for it in self.items:
             parts.append(it.emit(self))
+        self._check_trait_impl_coverage()
         parts.append(FOOTER)
         text = "".join(parts)
         self.text = text
         self._index(text)
         return text
+
+    def _check_trait_impl_coverage(self):
+        """A trait impl block some of whose methods are under contract here must not contain a
+        method that is not: a method added to such a block overrides a provided method of the
+        trait and changes what callers of the trait see, without touching any function under
+        contract.  (Inherent impl blocks are not checked: a new inherent method changes no
+        existing call.)  `allow_uncovered` lists the methods left out on the pinned tree."""
+        covered = {}
+        for it in self.items:
+            if isinstance(it, Fn) and it.container and " for " in it.container:
+                covered.setdefault((it.file, it.container), set()).add(it.name)
+        allow = getattr(self, "allow_uncovered", {})
+        for (file, container), names in covered.items():
+            sf = load_source(file)
+            present = set()
+            for (h, kw, o, c) in sf.impls():
+                if h != container:
+                    continue
+                for mm in rustscan.find_code(sf.src, sf.mask, r"\bfn\s+(\w+)\b", o, c):
+                    if sf._depth_between(o, mm.start()) == 1:
+                        present.add(mm.group(1))
+            extra = present - names - set(allow.get(container, []))
+            if extra:
+                raise Drift("impl block '%s' (%s) has method(s) not under contract: %s "
+                            "(a method added to a trait impl overrides a provided method)" % (container, file, ", ".join(sorted(extra))))
 
     def _index(self, text):
         """Build line tables: function ranges and clause marker lines."""
